@@ -1546,6 +1546,10 @@ def _encode_host(host: str, validate_host: bool) -> str:
             # same NFKC delimiter screen the parser applies to a netloc
             _check_netloc(host)
         host = _idna_encode(host)
+        if ":" in host or host[-1:].isdigit():
+            # the IDNA mapping can turn look-alike digits into an IP literal,
+            # which has its own canonical form
+            return _encode_host(host, validate_host)
     # Check for invalid characters explicitly; the IDNA 2003 fallback of
     # _idna_encode() lets any ASCII through (e.g. the NFKC form of U+2100).
     if validate_host and (invalid := NOT_REG_NAME.search(host)):
